@@ -902,7 +902,14 @@ func (fr *frame) appendBuiltin(c *ssa.CallCommon, resT types.Type, pos string) V
 	zeroApp := eq(n, bvLit(64, 0))
 	inplace := vc.define(fr.pfx+"app.inplace", sBool, or(fits, zeroApp))
 	fr.lockCheckElems(comp, app("sarr", x.S), false, pos)
+	// the existing array is written only when the elements fit in place; otherwise it is read
+	// (copied to a fresh array, which no lock protects yet)
+	saveG := fr.guard
+	fr.guard = and(saveG, inplace, not(zeroApp))
 	fr.lockCheckElems(comp, app("sarr", s.S), true, pos)
+	fr.guard = and(saveG, not(inplace), not(eq(app("sarr", s.S), "0")))
+	fr.lockCheckElems(comp, app("sarr", s.S), false, pos)
+	fr.guard = saveG
 	// Either the elements are written behind len in the existing array, or the
 	// whole array is copied to a fresh object (same offset: the layout of a new
 	// array is unobservable) and written there. One array term serves both.
